@@ -15,9 +15,9 @@ RULE = ("kinds: sequence (random operation sequence over {integrate(), integrate
         "non-trivial = sequence contains a reset followed by an integration; distinct by operation-shape signature")
 ASSUMPTIONS = ["persistent settings across reset(): method, rtol, atol, tf, kick mask, constants; dt returns to the constructor's dt with the sign of (tf - t0)"]
 FLOORS = {"quick": {"sequences": 100, "resets_checked": 100, "twin_comparisons": 100, "reset_after_event": 15, "reset_after_fault": 15, "reset_after_method_change": 15,
-                    "split_pairs": 30, "noop_calls": 30, "call_start_step_replay_steps": 300, "call_start_slope_checks": 100, "faults_inside_a_retry": 8},
+                    "split_pairs": 30, "noop_calls": 30, "call_start_step_replay_steps": 300, "call_start_slope_checks": 100, "faults_inside_a_retry": 8, "cross_process_comparisons": 10},
           "thorough": {"sequences": 1000, "resets_checked": 1000, "twin_comparisons": 1000, "reset_after_event": 150, "reset_after_fault": 150,
-                       "reset_after_method_change": 150, "split_pairs": 300, "noop_calls": 300, "call_start_step_replay_steps": 3000, "call_start_slope_checks": 1000, "faults_inside_a_retry": 40}}
+                       "reset_after_method_change": 150, "split_pairs": 300, "noop_calls": 300, "call_start_step_replay_steps": 3000, "call_start_slope_checks": 1000, "faults_inside_a_retry": 40, "cross_process_comparisons": 70}}
 CASE_TIMEOUT = 900
 METHODS = ["RK45CKSolver", "DOPRI45", "RK4Solver", "EulerSolver", "HeunEulerSolver", "RK8713MSolver", "ABAs5o6HSolver", "SymplecticEulerSolver",
            "BackwardEuler", "RadauIIA5", "GaussLegendre4", "MidpointSolver", "LobattoIIIC4", "R2:RK4Solver", "R3:MidpointSolver", "R3:HeunEulerSolver", "R4:EulerSolver"]
@@ -81,6 +81,12 @@ def gen_cases(tier, seed):
                 for kstep in ((2, 3, 5) if tier == "thorough" else (int(rng.integers(2, 5)),)):
                     cases.append(dict(kind="sequence", method=m0, direction=d, dense=dense, pseed=int(rng.integers(1 << 30)), cost=8,
                                       ops=[["fault_retry_integrate", None, kstep], ["integrate", None], ["reset"], ["integrate", None]]))
+    # the same sequence in THIS interpreter and in a fresh one started with another hash seed: bit-identical logs (no dependence on
+    # interpreter state, import order, dict/set iteration order or class-level caches filled by earlier work of this process)
+    seqs = [c for c in cases if c["kind"] == "sequence"]
+    for i in range(12 if tier == "quick" else 80):
+        src = seqs[int(rng.integers(len(seqs)))]
+        cases.append(dict(src, kind="crossproc", cost=10))
     for i in range(40 if tier == "quick" else 400):
         m0 = names[int(rng.integers(len(names)))]
         cuts = sorted(float(x) for x in rng.uniform(0.1, 0.9, int(rng.integers(1, 5))))
@@ -273,9 +279,46 @@ class Runner:
         return out
 
 
+def _sequence_log(spec):
+    d = spec["direction"]
+    prob = Manufactured(2, spec["pseed"], direction=d)
+    t0 = 0.2
+    R = Runner(spec, prob, t0, t0 + d * 2.5)
+    for op in spec["ops"]:
+        R.apply(op)
+    return [[o["digest"], o["rows"], repr(o["dt"]), o["nfev"], o["raised"]] for o in R.log]
+
+
+def _crossproc(spec):
+    import json
+    import os
+    import subprocess
+    import sys
+    rec = util.Rec(sig="xproc|%s|%d|%d" % (spec["method"], spec["direction"], spec["pseed"] % 1009))
+    feats = {"method": spec["method"], "direction": spec["direction"], "dense": spec["dense"], "kind": "crossproc"}
+    here = _sequence_log(spec)
+    env = dict(os.environ, PYTHONHASHSEED="4242")
+    p = subprocess.run([sys.executable, "-m", "vf.props.c13"], input=json.dumps(spec), capture_output=True, text=True, env=env, timeout=600,
+                       cwd=os.path.dirname(os.path.dirname(os.path.dirname(os.path.abspath(__file__)))))
+    lines = [l for l in p.stdout.splitlines() if l.startswith("LOG ")]
+    if p.returncode != 0 or not lines:
+        raise RuntimeError("child interpreter failed: rc=%s %s" % (p.returncode, p.stderr[-400:]))
+    there = json.loads(lines[-1][4:])
+    rec.bump("cross_process_comparisons")
+    rec.nontrivial = any(r[1] > 1 for r in here)
+    if here != there:
+        k = next((i for i in range(min(len(here), len(there))) if here[i] != there[i]), min(len(here), len(there)))
+        rec.violate("determinism", "same_sequence_differs_between_this_process_and_a_fresh_interpreter", dict(feats, op=spec["ops"][k][0] if k < len(spec["ops"]) else None),
+                    at=k, here=here[k] if k < len(here) else None, fresh=there[k] if k < len(there) else None)
+    rec.sample = {"spec": {"method": spec["method"], "ops": spec["ops"]}, "operations": len(here)}
+    return rec.out()
+
+
 def run_case(spec):
     if spec["kind"] == "split":
         return _split(spec)
+    if spec["kind"] == "crossproc":
+        return _crossproc(spec)
     d = spec["direction"]
     prob = Manufactured(2, spec["pseed"], direction=d)
     t0 = 0.2
@@ -444,3 +487,15 @@ def _split(spec):
     if diff > unit:
         rec.violate("split_vs_single", "split_run_differs_from_single_run_beyond_tolerance", feats, diff=diff, unit=unit, single_error=err_single)
     return rec.out()
+
+
+if __name__ == "__main__":     # child side of the cross-process determinism probe: spec on stdin, log on stdout
+    import json as _json
+    import sys as _sys
+    import warnings as _w
+    _w.simplefilter("ignore")
+    from vf import core as _core
+    _core.activate_repo()
+    np.seterr(all="ignore")
+    _spec = _json.loads(_sys.stdin.read())
+    print("LOG " + _json.dumps(_sequence_log(_spec)))
